@@ -35,8 +35,12 @@ def factorize_arrow_arr(
     if isinstance(arr, pa.ChunkedArray):
         arr = arr.combine_chunks()
 
-    # a null key is code -1 (to_numpy alone turns null indices into NaN)
-    codes = arr.indices.fill_null(-1).to_numpy(zero_copy_only=False)
+    # a null key is code -1 (to_numpy alone turns null indices into NaN); the indices of a
+    # dictionary supplied by the caller may be of an unsigned type, which cannot hold -1
+    indices = arr.indices
+    if arr.null_count or not pa.types.is_signed_integer(indices.type):
+        indices = indices.cast(pa.int64()).fill_null(-1)
+    codes = indices.to_numpy(zero_copy_only=False)
     labels = pd.Index(arr.dictionary.to_pandas(types_mapper=pd.ArrowDtype), name=name)
 
     return codes, labels
